@@ -45,11 +45,12 @@ class AVal:
     const: Optional[tuple] = None
     nonempty: bool = False
     hk: bool = False  # known hashable (was obtained as a mapping key)
+    kof: Optional[str] = None  # name of the local mapping this value was obtained from as a key
 
     def __hash__(self):
         h = self.__dict__.get("_h")
         if h is None:
-            h = hash((self.types, self.org, self.taint, self.elem, self.key, self.tup, self.fields, self.const, self.nonempty, self.hk))
+            h = hash((self.types, self.org, self.taint, self.elem, self.key, self.tup, self.fields, self.const, self.nonempty, self.hk, self.kof))
             object.__setattr__(self, "_h", h)
         return h
 
@@ -225,6 +226,7 @@ def join(a: AVal, b: AVal, depth=MAX_DEPTH) -> AVal:
         fields=fields,
         const=cst,
         nonempty=_ne(a) and _ne(b) and (a.nonempty or b.nonempty),
+        kof=a.kof if a.kof == b.kof else None,
         hk=((a.hk if a.is_json else True) and (b.hk if b.is_json else True)) if (a.is_json or b.is_json) else False,
     )
 
